@@ -5,6 +5,7 @@
 From NDB Require Export Crash.Protocol Corr.Common.
 
 Record case := {
+  c_rtrace : list rstep;                             (* the same run at record granularity *)
   c_trace : list step;
   c_seeded : bool;                                   (* reserved *)
   c_monitor_ok : bool;                               (* harness-side monitor verdict *)
@@ -19,6 +20,17 @@ Definition point_ok (tr : list step) (p : nat * mode * option (list N)) : bool :
   | (_, _, None) => false     (* the implementation's scanner failed on an image of a real run *)
   end.
 
+Definition step_eqb (a b : step) : bool :=
+  match a, b with
+  | STx t None, STx t' None => t =? t'
+  | STx t (Some (u, n)), STx t' (Some (u', n')) => (t =? t') && (u =? u') && (n =? n')
+  | STorn, STorn | SWSync, SWSync | SP, SP | SPSync, SPSync | SAck, SAck | SBad, SBad => true
+  | SRewrite t u n, SRewrite t' u' n' => (t =? t') && (u =? u') && (n =? n')
+  | _, _ => false
+  end%N.
+
 Definition ok (c : case) : bool :=
+  (* the Coq grouping of the record-level trace is the harness's abstract trace *)
+  list_eqb step_eqb (abstract (c_rtrace c)) (c_trace c) &&
   Bool.eqb (protocol_ok (c_trace c)) (c_monitor_ok c) &&
   forallb (point_ok (c_trace c)) (c_points c).
